@@ -99,6 +99,9 @@ def carrysave_adder(a, b, c, final_adder=ripple_add):
     a, b, c = libutils.match_bitwidth(a, b, c)
     partial_sum = a ^ b ^ c
     shift_carry = (a | b) & (a | c) & (b | c)
+    if len(a) == 1:
+        # nothing above bit 0 of the partial sum is left to add to the carry
+        return pyrtl.concat(shift_carry, partial_sum).zero_extended(3)
     return pyrtl.concat(final_adder(partial_sum[1:], shift_carry), partial_sum[0])
 
 
